@@ -200,7 +200,7 @@ func (ps *PartSet) AddPart(part *Part, verify bool) (bool, error) {
 	defer ps.mtx.Unlock()
 
 	// Invalid part index
-	if part.Index >= ps.total {
+	if part.Index < 0 || part.Index >= ps.total {
 		return false, ErrPartSetUnexpectedIndex
 	}
 
